@@ -15,6 +15,10 @@ from ..core.astutil import u, dot_args, ncmp, conjuncts, compare_triples, norm_c
 from ..core.index import AnalysisError
 
 
+def _dot(x, y):
+    return "dot(%s,%s)" % tuple(sorted((x, y)))       # the inner product is symmetric
+
+
 class _Canon:
     def __init__(self, f, verts, point):
         self.f, self.verts, self.point = f, verts, point       # verts: {text: 'A'|'B'|'C'}; point: text of P or None (origin)
@@ -36,6 +40,13 @@ class _Canon:
             if len(ds) == 1 and depth < 8:
                 return self.c(ds[0], depth + 1)
             return "?" + e.id
+        if isinstance(e, ast.UnaryOp) and isinstance(e.op, ast.USub) and dot_args(e.operand) is not None and self.point is None:
+            # -dot(x, V) with P the origin is dot(x, P - V): the sign may be written on the product instead of on the vertex
+            x, y = (self.c(a_, depth) for a_ in dot_args(e.operand))
+            if y in ("A", "B", "C"):
+                return _dot(x, "(P-%s)" % y)
+            if x in ("A", "B", "C"):
+                return _dot("(P-%s)" % x, y)
         if isinstance(e, ast.UnaryOp) and isinstance(e.op, ast.USub):
             inner = self.c(e.operand, depth)
             if inner in ("A", "B", "C") and self.point is None:
@@ -43,7 +54,7 @@ class _Canon:
             return "-(%s)" % inner
         da = dot_args(e)
         if da is not None:
-            return "dot(%s,%s)" % (self.c(da[0], depth), self.c(da[1], depth))
+            return _dot(self.c(da[0], depth), self.c(da[1], depth))
         if isinstance(e, ast.BinOp):
             op = {ast.Add: "+", ast.Sub: "-", ast.Mult: "*", ast.Div: "/"}.get(type(e.op))
             if op:
@@ -54,8 +65,7 @@ class _Canon:
 def _expected():
     ab, ac = "(B-A)", "(C-A)"
     ap, bp, cp = "(P-A)", "(P-B)", "(P-C)"
-    d = {1: "dot(%s,%s)" % (ab, ap), 2: "dot(%s,%s)" % (ac, ap), 3: "dot(%s,%s)" % (ab, bp), 4: "dot(%s,%s)" % (ac, bp),
-         5: "dot(%s,%s)" % (ab, cp), 6: "dot(%s,%s)" % (ac, cp)}
+    d = {1: _dot(ab, ap), 2: _dot(ac, ap), 3: _dot(ab, bp), 4: _dot(ac, bp), 5: _dot(ab, cp), 6: _dot(ac, cp)}
     vc = "((%s*%s)-(%s*%s))" % (d[1], d[4], d[3], d[2])
     vb = "((%s*%s)-(%s*%s))" % (d[5], d[2], d[1], d[6])
     va = "((%s*%s)-(%s*%s))" % (d[3], d[6], d[5], d[4])
